@@ -55,6 +55,7 @@ type interp struct {
 	depth       int
 	bufSeq      int
 	permuteMaps bool
+	permuteMode int
 	top         *frame // innermost frame, for positions
 	rtErrString types.Type
 
